@@ -74,6 +74,13 @@ def run_case(ctx, case):
         dates = [s for s in ex['substrings'] if isinstance(s, str) and s not in allowed and re.match(r'^[\d/\-. :a-zA-Z,]+$', s)]
         if dates:
             rec.note('date-like substrings excluded by gentest: %d' % len(dates))
+            # which stamps count as "now" is a heuristic, but its documented window is one day either side of the run:
+            # when NOTHING the command writes carries a date inside that window, no date-like exclusion is justified
+            alltext = '\n'.join(spec['stdout'] + spec['stderr'] + [l for f in spec['files'] if f['kind'] == 'text' for l in f['lines']])
+            if not any(t in alltext for t in GC.today_tokens()) and not any(w in alltext for w in ('today', 'now')):
+                rec.event('hook:date_exclusions_checked')
+                rec.violation('date_excluded_though_no_output_is_dated_within_a_day_of_the_run', {
+                    'case': case, 'mech': {'n': len(dates)}, 'facts': {'excluded': dates[:4], 'window': GC.today_tokens()[:1]}})
     # ---- mutations -------------------------------------------------------------------------
     datesubs = []
     if ex is not None:
